@@ -522,7 +522,7 @@ async fn run_panic<B: Backend>(b: &B, prog0: &Arc<Program>, seed: u64, victim: N
     // verification made on behalf of one query (C01-F1) cannot hide the panic
     // from the next
     for n in &dependants {
-        let Built { engine, mut or, .. } = build(b, &prog, seed).await;
+        let Built { engine, or, .. } = build(b, &prog, seed).await;
         let t = engine.clone().tracked().await;
         let r = bounded(AssertUnwindSafe(query_node(&t, *n)).catch_unwind(), 20).await;
         drop(t);
